@@ -64,6 +64,7 @@ type tConn struct {
 	tag        string
 	chunkMax   int
 	pauseEvery int
+	idleS      int
 	uDone      chan struct{}
 	bDone      chan struct{}
 	bAccepted  bool
@@ -351,6 +352,8 @@ func worldTunnel(w *World) {
 				c.tag = string(c.A[:16])
 				tw.byTag[c.tag] = c
 			}
+			// an idle period in the middle of the stream: long-lived connections meet timers that short ones never do
+			c.idleS = w.KnobPick(fmt.Sprintf("c%d.idle_s", cid), 0, 0, 0, 0, 35, 100, 700)
 			c.chunkMax = w.KnobPick(fmt.Sprintf("c%d.chunk", cid), 1, 17, 1024, 4096, 65536, 1<<20)
 			c.pauseEvery = w.KnobPick(fmt.Sprintf("c%d.pause_every", cid), 0, 0, 3, 20)
 			c.abruptSide = cr.Intn(2)
@@ -410,28 +413,23 @@ func worldTunnel(w *World) {
 		return
 	}
 	// let the backends observe the closes
+	// the backend's reader has seen the end of the stream (its writer may still sit in a drawn idle period)
+	bEnded := func(c *tConn) bool {
+		c.mu.Lock()
+		defer c.mu.Unlock()
+		return c.bEndAt != 0
+	}
 	w.WaitUntil(90*time.Second, 200*time.Millisecond, func() bool {
 		for _, c := range all {
-			if c.bAccepted {
-				select {
-				case <-c.bDone:
-				default:
-					return false
-				}
+			if c.bAccepted && !bEnded(c) {
+				return false
 			}
 		}
 		return true
 	})
 	for _, c := range all {
-		if !c.bAccepted {
-			continue
-		}
-		select {
-		case <-c.bDone:
-		default:
-			if !w.In.Faults {
-				tw.violate("close", "backend-conn-left-open", "conn%d (%s): backend side still open 90 s after the user side ended", c.id, c.p.name)
-			}
+		if c.bAccepted && !bEnded(c) && !w.In.Faults {
+			tw.violate("close", "backend-conn-left-open", "conn%d (%s): backend side still open 90 s after the user side ended", c.id, c.p.name)
 		}
 	}
 	// bandwidth oracle
@@ -451,7 +449,7 @@ func (tw *tunnelWorld) bound(all []*tConn) time.Duration {
 	thr := float64(cfg.Window) / rtt.Seconds() / 8
 	total := 0.0
 	for _, c := range all {
-		t := float64(c.bytesTotal) / thr
+		t := float64(c.bytesTotal)/thr + float64(2*c.idleS+2)
 		if c.p.limitMode != "" {
 			t += float64(c.bytesTotal) / float64(c.p.limitKB*1024)
 		}
@@ -681,7 +679,15 @@ func (tw *tunnelWorld) writeStream(conn net.Conn, data []byte, c *tConn, side in
 	r := simnet.NewRand(tw.w.In.Seed, fmt.Sprintf("w%d.%d", c.id, side))
 	i := 0
 	k := 0
+	idleAt := -1
+	if c.idleS > 0 && len(data) > 16 {
+		idleAt = 16 + r.Intn(len(data)-16) // never before the tag that identifies the connection to the backend
+	}
 	for i < len(data) {
+		if idleAt >= 0 && i >= idleAt {
+			idleAt = -1
+			time.Sleep(time.Duration(c.idleS)*time.Second + time.Duration(r.Range(0, 999))*time.Millisecond)
+		}
 		n := 1 + r.Intn(max(c.chunkMax, 1))
 		if i+n > len(data) {
 			n = len(data) - i
